@@ -421,6 +421,8 @@ def render_directive_case(pk, case, uid0):
             pk.filler(DIR_LINES[kind] + "\n")
         elif kind == "code":
             pk.filler("    let _z%d = 0;\n" % uid)
+        elif kind == "attr":
+            pk.filler(("    #[cfg(debug_assertions)]\n", "    #[allow(unused)]\n")[uid % 2])
         elif kind == "cmtextra":
             pk.filler(("    // breadlog:ignore please\n", "    // see breadlog:no-kvp\n", "    // breadlog:ignore breadlog:no-kvp\n")[uid % 3])
         elif kind == "codetrail":
